@@ -52,6 +52,7 @@ TRY_ARRAY_CONVERT = "<ciborium::value::Value as util::ValueTryAs>::try_as_array_
 TO_ARRAY = "util::to_cbor_array"
 TRY_BRANCH = "core::ops::try_trait::Try::branch"
 X = ("x",)
+NEVER = (("never",), "eq", 1)      # a condition that is statically false
 CAPACITY_ONLY = {"alloc::vec::Vec::<T, A>::reserve", "alloc::vec::Vec::<T, A>::reserve_exact", "alloc::vec::Vec::<T, A>::shrink_to_fit",
                  "alloc::vec::Vec::<T, A>::shrink_to"}
 
@@ -161,6 +162,8 @@ def normalize(s):
         inner = normalize(s[2])
         if inner[0] == "empty":
             return inner
+        if NEVER in s[1]:
+            return ("empty",)
         if not s[1]:
             return inner
         return ("opt", tuple(s[1]), inner)
@@ -229,11 +232,13 @@ class Seq:
             return unknown("iterator chain too deep")
         if is_call(it, INTO_ITER) or (is_call(it) and it[1] in SLICE_ITER):
             src = it[2][0]
+            through_ref = False
             while src[0] in ("ref", "deref") or (src[0] == "cast" and src[1] == "PointerCoercion"):
+                through_ref = through_ref or src[0] == "ref"
                 src = src[1] if src[0] != "cast" else src[2]
             if src[0] == "array":
-                # `[a, b].iter()` / `[a, b].into_iter()`: exactly these values (by reference for iter())
-                byref = it[1] in SLICE_ITER
+                # `[a, b].iter()` / `(&[a, b]).into_iter()` yield references to exactly these values, `[a, b].into_iter()` the values
+                byref = it[1] in SLICE_ITER or through_ref
                 return ("lit", tuple(("ref", x, False) if byref else x for x in src[1]))
             return self.of_value(it[2][0], depth + 1, at)
         if is_call(it) and it[1] in ITER_BYREF:
@@ -543,10 +548,38 @@ class Seq:
         return unknown("operation %s on the vector" % (name or "?").split("::")[-1])
 
     def _extra_conds(self, bb, ref_bb):
-        """decisions taken between ref_bb and bb, `?` success edges excluded"""
+        """decisions taken between ref_bb and bb, `?` success edges excluded; a decision on a literal (`if let Some(s) = None`
+        after a constant argument reached an inlined helper) is evaluated: true ones are dropped, a false one makes the
+        whole condition ('never',)"""
         base = conditions(self.fn, self.pv, ref_bb)
-        return tuple(c for c in conditions(self.fn, self.pv, bb) if c not in base
-                     and not (c[0][0] == "discr" and is_call(c[0][1], TRY_BRANCH)))
+        out = []
+        for c in conditions(self.fn, self.pv, bb):
+            if c in base or (c[0][0] == "discr" and is_call(c[0][1], TRY_BRANCH)):
+                continue
+            s = self._static(c)
+            if s is True:
+                continue
+            if s is False:
+                return (NEVER,)
+            out.append(c)
+        return tuple(out)
+
+    def _static(self, c):
+        subj, op, val = c
+        if subj[0] != "const_variant":
+            return None
+        names = self.prog.enums.get(subj[1]) or {}
+        d = [k for k, n in names.items() if n == subj[2]]
+        if len(d) != 1:
+            return None
+        d = d[0]
+        if op == "eq":
+            return d == val
+        if op == "in":
+            return d in val
+        if op == "ne":
+            return d not in val
+        return None
 
     def _conditional(self, bb, ref_bb, header=None):
         """does reaching bb from ref_bb depend on a decision other than a `?` succeeding (and, inside a loop, the
